@@ -2,7 +2,7 @@
    Same setting: the model's executors (Exec.v) over the Redis reference primitives (Redis.dprim), for ALL databases
    and argument values. *)
 From Coq Require Import String QArith Lia.
-From GR Require Import Base BaseFacts Resp Handler Exec Conn Redis GrammarFacts SugarFacts.
+From GR Require Import Base BaseFacts Resp Handler Exec Conn Redis Grammar GrammarFacts SugarFacts.
 Open Scope Z_scope.
 
 Lemma next_pairs_flat (pairs : list (bytes * bytes)) :
@@ -32,6 +32,7 @@ Qed.
 
 Section SugarMore.
   Variable c : cstate.
+  Hypothesis Hau : cs_auth c = true.
   Notation X x := (x db dhandle).
 
   (* ---------- MSET: every key holds the LAST value given for it, whatever it held before; reply OK ---------- *)
@@ -136,5 +137,79 @@ Section SugarMore.
       rewrite <- map_map with (g := Some). rewrite all_some_somes. reflexivity.
     - destruct (get_each_missing d h Eh fields [] []) as (evs & ->). cbn [rev app collect aget].
       rewrite <- map_map with (f := fun _ : bytes => nil_msg) (g := Some). rewrite all_some_somes. reflexivity.
+  Qed.
+
+  (* ---------- ZREVRANGEBYSCORE key max min [WITHSCORES] [LIMIT offset count]:
+     the members with min <= score <= max (bounds optionally exclusive) in DESCENDING order, then offset/count ---------- *)
+  Lemma select_groups_shift {A} : forall (gs : list (list A)) n off cnt,
+    select_groups gs (n + 1) (off + 1) cnt = select_groups gs n off cnt.
+  Proof.
+    induction gs as [|g r IH]; intros n off cnt; [reflexivity|]. cbn [select_groups].
+    replace (off + 1 <=? n + 1) with (off <=? n) by (destruct (Z.leb_spec off n), (Z.leb_spec (off + 1) (n + 1)); lia || reflexivity).
+    replace (n + 1 - (off + 1)) with (n - off) by lia. rewrite IH. reflexivity.
+  Qed.
+
+  Lemma select_groups_skip {A B0} (f : A -> list B0) cnt : forall (k : nat) (l : list A),
+    select_groups (map f l) 0 (Z.of_nat k) cnt = select_groups (map f (skipn k l)) 0 0 cnt.
+  Proof.
+    induction k as [|k IH]; intros l; [reflexivity|].
+    destruct l as [|x r]; [reflexivity|]. cbn [map select_groups skipn].
+    replace (Z.of_nat (S k) <=? 0) with false by (symmetry; apply Z.leb_gt; lia). cbn [andb app].
+    replace (Z.of_nat (S k)) with (Z.of_nat k + 1) by lia. rewrite (select_groups_shift (map f r) 0 (Z.of_nat k) cnt). apply IH.
+  Qed.
+
+  Lemma select_groups_take {A B0} (f : A -> list B0) cnt : forall (l : list A) m, 0 <= m ->
+    select_groups (map f l) m 0 cnt = flat_map f (if cnt <? 0 then l else firstn (Z.to_nat (cnt - m)) l).
+  Proof.
+    induction l as [|x r IH]; intros m Hm.
+    - destruct (cnt <? 0); [reflexivity|]. rewrite firstn_nil. reflexivity.
+    - cbn [map select_groups]. replace (0 <=? m) with true by (symmetry; apply Z.leb_le; lia). rewrite Z.sub_0_r. cbn [andb].
+      rewrite (IH (m + 1)) by lia. destruct (Z.ltb_spec cnt 0) as [Hc|Hc]; cbn [orb]; [reflexivity|].
+      destruct (Z.ltb_spec m cnt) as [Hmc|Hmc].
+      + replace (Z.to_nat (cnt - m)) with (S (Z.to_nat (cnt - (m + 1)))) by lia. reflexivity.
+      + replace (Z.to_nat (cnt - m)) with 0%nat by lia. replace (Z.to_nat (cnt - (m + 1))) with 0%nat by lia. reflexivity.
+  Qed.
+
+  Lemma limit_by_flat {A B0} (f : A -> list B0) step : (0 < step)%nat -> (forall x, length (f x) = step) ->
+    forall off cnt (l : list A), limit_by step off cnt (flat_map f l) = flat_map f (limit off cnt l).
+  Proof.
+    intros Hs Hf off cnt l. unfold limit_by, limit. destruct step as [|st]; [lia|].
+    destruct (Z.ltb_spec off 0) as [Ho|Ho]; [reflexivity|].
+    rewrite (groups_flat c Hau f (S st) Hs Hf l (length (flat_map f l)) (Nat.le_refl _)).
+    rewrite <- (Z2Nat.id off Ho) at 1. rewrite (select_groups_skip f cnt (Z.to_nat off) l).
+    rewrite (select_groups_take f cnt (skipn (Z.to_nat off) l) 0 (Z.le_refl 0)). rewrite Z.sub_0_r.
+    assert (Sk : skipn (Z.to_nat (Z.min off (lenZ l))) l = skipn (Z.to_nat off) l).
+    { unfold lenZ. destruct (Z.le_gt_cases off (Z.of_nat (length l))) as [H|H].
+      - rewrite Z.min_l by lia. reflexivity.
+      - rewrite Z.min_r by lia. rewrite Nat2Z.id. rewrite skipn_all. rewrite skipn_all2 by lia. reflexivity. }
+    rewrite Sk. destruct (Z.ltb_spec cnt 0) as [Hc|Hc]; [reflexivity|].
+    f_equal. unfold lenZ. destruct (Z.le_gt_cases cnt (Z.of_nat (length l))) as [H|H].
+    - rewrite Z.min_l by lia. reflexivity.
+    - rewrite Z.min_r by lia. rewrite Nat2Z.id.
+      rewrite !firstn_all2; [reflexivity| |]; rewrite skipn_length; lia.
+  Qed.
+
+  Definition zfmt (ws : bool) (e : bytes * fl) : list resp := if ws then [bulk (fst e); bulk (fl_text (snd e))] else [bulk (fst e)].
+
+  Theorem zrevrangebyscore_spec (d : db) k (mx mn : rstok) (ws : list zr_word) z :
+    rstok_ok mx = true -> rstok_ok mn = true -> forallb zr_word_ok ws = true -> aget d k = Some (VZSet z) ->
+    let o := zr_opt_of ws in
+    run (X x_ZREVRANGEBYSCORE) c (map bulk ([k; rstok_txt mx; rstok_txt mn] ++ flat_map print_zr_word ws)) d =
+    (d, x_ok (RArr (flat_map (zfmt (zr_withscores o))
+                      (limit (zr_offset o) (zr_count o)
+                         (rev (filter (fun e => in_score_range (ft_val (rs_tok mn)) (ft_val (rs_tok mx)) (rs_ex mn) (rs_ex mx) (snd e)) z)))))).
+  Proof.
+    intros Hx Hn Hws Hk o. unfold run, x_ZREVRANGEBYSCORE. rewrite map_app. cbn [map app].
+    rewrite key1_bulk. unfold rscore1, next_string, bulk at 1, msg_string. rewrite (rstok_range mx Hx).
+    unfold bulk at 1. rewrite (rstok_range mn Hn).
+    rewrite (range_opts_print ws default_zrange_opt Hws). fold (zr_opt_of ws). fold o.
+    unfold Exec.call, dhandle. cbn [e_hs e_evs dprim]. rewrite Hk.
+    cbn [with_limit with_ex zr_withscores zr_offset zr_count zr_minex zr_maxex]. rewrite (limit_all c Hau).
+    unfold rev_reply, zreply. cbn [hr_err hr_msg ok hr_ok e_hs x_of x_msg x_err].
+    destruct (zr_withscores o) eqn:W.
+    - rewrite (reverse_by_flat c Hau (fun e : bytes * fl => [bulk (fst e); bulk (fl_text (snd e))]) 2) by (auto; lia).
+      rewrite (limit_by_flat (fun e : bytes * fl => [bulk (fst e); bulk (fl_text (snd e))]) 2) by (auto; lia). reflexivity.
+    - rewrite (reverse_by_flat c Hau (fun e : bytes * fl => [bulk (fst e)]) 1) by (auto; lia).
+      rewrite (limit_by_flat (fun e : bytes * fl => [bulk (fst e)]) 1) by (auto; lia). reflexivity.
   Qed.
 End SugarMore.
